@@ -244,7 +244,14 @@ E4_CORPUS = [
     dict(name="g17_two_ctx", file="g17_two_ctx.rustemo", args=[], nq=5, nt=6),
     dict(name="g17_lalr", file="g17_two_ctx.rustemo", args=["--table", "lalr"], nq=5, nt=6),
     dict(name="g18_two_ctx_deep", file="g18_two_ctx_deep.rustemo", args=[], nq=6, nt=7),
+    dict(name="g19_deep_chain", file="g19_deep_chain.rustemo", args=[], nq=4, nt=5),
+    dict(name="g19_lalr", file="g19_deep_chain.rustemo", args=["--table", "lalr"], nq=4, nt=5),
 ]
+
+
+_EXCL = [x for x in os.environ.get("VERIF_E4_EXCLUDE", "").split(",") if x]  # development only (first-result runs of seeds)
+if _EXCL:
+    E4_CORPUS[:] = [c for c in E4_CORPUS if not any(c["name"].startswith(x) for x in _EXCL)]
 
 
 def generate_e4(tier):
